@@ -1,1 +1,4 @@
 pub mod ref_tsx;
+pub mod ref_digest;
+pub mod ref_stun;
+pub mod ref_select;
